@@ -28,7 +28,7 @@ def one(diff):
     return (diff, "quiet" if not bad else "NOISY", bad)
   finally:
     shutil.rmtree(tmp, ignore_errors=True)
-with ThreadPoolExecutor(max_workers=8) as ex:
+with ThreadPoolExecutor(max_workers=int(os.environ.get("VERIF_JOBS", "8"))) as ex:
   res = list(ex.map(one, diffs))
 nv = ne = 0
 for diff, st, info in res:
